@@ -1625,8 +1625,43 @@ func c01EveryFileIsRead(c *Ctx, R string) {
 		return true
 	})
 	bad := ""
-	if g := lexicalGuards(pm, call, loop.Body); len(g) > 0 {
-		bad = "readRules is guarded by `" + roleStr(info, g[0].E) + "`"
+	// an enclosing `if` is fine when its other branch leaves the function (an error exit written as
+	// if/else instead of an early return) or is the path filter
+	endsInReturn := func(st ast.Stmt) bool {
+		blk, ok := st.(*ast.BlockStmt)
+		if !ok || len(blk.List) == 0 {
+			return false
+		}
+		_, isRet := blk.List[len(blk.List)-1].(*ast.ReturnStmt)
+		return isRet
+	}
+	var child ast.Node = call
+	for cur := pm[ast.Node(call)]; cur != nil && cur != ast.Node(loop.Body); child, cur = cur, pm[cur] {
+		ifs, isIf := cur.(*ast.IfStmt)
+		if !isIf || child == ifs.Init || child == ast.Node(ifs.Cond) {
+			continue
+		}
+		other := ast.Stmt(ifs.Body)
+		if child == ast.Node(ifs.Body) {
+			other = ifs.Else
+		}
+		isFilter := false
+		if gc, isCall := ast.Unparen(ifs.Cond).(*ast.CallExpr); isCall {
+			if fn := Callee(info, gc); fn != nil && fn.Name() == "IsPathAllowed" {
+				isFilter = true
+			}
+		}
+		if u, isNot := ast.Unparen(ifs.Cond).(*ast.UnaryExpr); isNot && u.Op == token.NOT {
+			if gc, isCall := ast.Unparen(u.X).(*ast.CallExpr); isCall {
+				if fn := Callee(info, gc); fn != nil && fn.Name() == "IsPathAllowed" {
+					isFilter = true
+				}
+			}
+		}
+		if isFilter || (other != nil && endsInReturn(other)) {
+			continue
+		}
+		bad = "readRules is guarded by `" + roleStr(info, ifs.Cond) + "`"
 	}
 	inspectNoLit(loop.Body, func(m ast.Node) bool {
 		b, ok := m.(*ast.BranchStmt)
